@@ -47,6 +47,10 @@ Step ==
             IF AlignmentNeutralClaimed(Rec.outer, Rec.ntop)
             THEN Stat("equal-claimed") /\ Clause("aligned-intensity-equals-unaligned", Rec.nan = 0 /\ Rec.reldiff_q <= Tol, <<Rec.alignment, Rec.reldiff_q, Rec.nan>>)
             ELSE Stat("equal-not-claimed")
+       [] Rec.kind = "cgexp" ->
+            \* C03, second reading: couplings obtained from random canonical LS coefficients by the Clebsch-Gordan
+            \* expansion agree (with the model's sign) for all chains that share a coefficient
+            Stat("cgexp") /\ Clause("shared-coefficient-consistent-with-clebsch-gordan-expansion", Rec.diff_q <= Tol, <<Rec.diff_q, Rec.nonzero>>)
        [] OTHER -> Clause("unknown-record-kind", FALSE, Rec.kind)
   /\ l' = l + 1
 TraceInit == l = 1
